@@ -646,7 +646,7 @@ Proof. intros s f s' H. unfold dense_step in H. col_tac H. Qed.
 
 (* a DenseNodes message with at least one of its five columns: ids (1), DenseInfo (5), lat (8),
    lon (9), keys_vals (10).  One with none is a group without nodes (what encoders write for it:
-   empty packed fields are not written) and is accepted as such (fix e69cac9). *)
+   empty packed fields are not written) and is accepted as such (fix d133072). *)
 Definition dense_nonempty (d : msg) : bool :=
   has_field 1 d || has_field 5 d || has_field 8 d || has_field 9 d || has_field 10 d.
 
